@@ -176,13 +176,14 @@ theorem delNode_repaired (s : Reg) (key : Name) (i : NodeInfo) : delNode repaire
     simp only [repaired_delPatternReg, if_true, tryStep_removeUsageO, id, reduceCtorEq, if_false, removeUsageO, popUsageKey_nodes]
 
 theorem removeNode_cases (s : Reg) (n : Name) (wc force : Bool) :
-    removeNode repaired s n wc force = (s, .error) ∨ removeNode repaired s n wc force = (s, .refused) ∨
+    (AL.get? s.nodes n = none ∧ removeNode repaired s n wc force = (s, .error)) ∨
+    removeNode repaired s n wc force = (s, .refused) ∨
     (∃ i, AL.get? s.nodes n = some i ∧ (∀ u, u ∉ ulook (s.usage .node) n) ∧
       removeNode repaired s n wc force =
         (if (!force && wc) = true then dropControls (delNodeR s n i) i.uid else delNodeR s n i, .ok)) := by
   unfold removeNode
   cases h : AL.get? s.nodes n with
-  | none => exact Or.inl rfl
+  | none => exact Or.inl ⟨rfl, rfl⟩
   | some i =>
     simp only [repaired_controlsAfter, Bool.not_true, Bool.and_false, Bool.false_eq_true, if_false, Bool.and_true,
       delNode_repaired]
@@ -212,13 +213,14 @@ theorem delLink_repaired (s : Reg) (key : Name) (i : LinkInfo) : delLink repaire
   simp only [tryStep_removeUsage, tryStep_removeUsageO, tryStep_ite_removeUsageO, repaired_delPatternReg, if_true]
 
 theorem removeLink_cases (s : Reg) (n : Name) (wc force : Bool) :
-    removeLink repaired s n wc force = (s, .error) ∨ removeLink repaired s n wc force = (s, .refused) ∨
+    (AL.get? s.links n = none ∧ removeLink repaired s n wc force = (s, .error)) ∨
+    removeLink repaired s n wc force = (s, .refused) ∨
     (∃ i, AL.get? s.links n = some i ∧
       removeLink repaired s n wc force =
         (if (!force && wc) = true then dropControls (delLinkR s n i) i.uid else delLinkR s n i, .ok)) := by
   unfold removeLink
   cases h : AL.get? s.links n with
-  | none => exact Or.inl rfl
+  | none => exact Or.inl ⟨rfl, rfl⟩
   | some i =>
     simp only [repaired_controlsAfter, Bool.not_true, Bool.and_false, Bool.false_eq_true, if_false, Bool.and_true,
       delLink_repaired]
